@@ -64,7 +64,9 @@ func handleHTTP2Stream(http2Assembler *Http2Assembler, progress *api.ReadProgres
 	}
 
 	if item != nil {
-		if isGrpc {
+		// The stream is gRPC when either direction says so, not only the message that happened
+		// to complete the pair.
+		if isGrpc || pairCarriesGrpcMarker(item.Pair) {
 			item.Protocol = grpcProtocol
 		} else {
 			item.Protocol = http2Protocol
@@ -73,6 +75,26 @@ func handleHTTP2Stream(http2Assembler *Http2Assembler, progress *api.ReadProgres
 	}
 
 	return nil
+}
+
+func pairCarriesGrpcMarker(pair *api.RequestResponsePair) bool {
+	for _, message := range []api.GenericMessage{pair.Request, pair.Response} {
+		payload, ok := message.Payload.(HTTPPayload)
+		if !ok {
+			continue
+		}
+		var header http.Header
+		switch data := payload.Data.(type) {
+		case *http.Request:
+			header = data.Header
+		case *http.Response:
+			header = data.Header
+		}
+		if header.Get("Grpc-Status") != "" || strings.Contains(header.Get("Content-Type"), "application/grpc") {
+			return true
+		}
+	}
+	return false
 }
 
 func handleHTTP1ClientStream(b *bufio.Reader, progress *api.ReadProgress, tcpID *api.TcpID, counterPair *api.CounterPair, captureTime time.Time, emitter api.Emitter, reqResMatcher *requestResponseMatcher) (switchingProtocolsHTTP2 bool, req *http.Request, err error) {
